@@ -244,7 +244,7 @@ func (n *Nodis) ExpireAtXX(key string, timestamp time.Time) int64 {
 			v = 0
 			return nil
 		}
-		if meta.key.Expiration != 0 {
+		if meta.key.Expiration == 0 {
 			v = 0
 			return nil
 		}
@@ -260,24 +260,23 @@ func (n *Nodis) ExpireAtXX(key string, timestamp time.Time) int64 {
 
 // ExpireAtLT the keys only when the new expiry is less than current one
 func (n *Nodis) ExpireAtLT(key string, timestamp time.Time) int64 {
-	var v int64 = 1
+	var v int64 = 0
 	_ = n.exec(func(tx *Tx) error {
 		meta := tx.writeKey(key, nil)
 		if !meta.isOk() {
-			v = 0
 			return nil
 		}
-		if meta.key.Expiration != 0 {
-			v = 0
+		if meta.key.Expiration == 0 {
 			return nil
 		}
 		unix := timestamp.UnixMilli()
-		if meta.key.Expiration > unix {
+		if unix < meta.key.Expiration {
 			meta.key.Expiration = unix
 			n.signalModifiedKey(key, meta)
 			n.notify(func() []patch.Op {
 				return []patch.Op{{Type: patch.OpTypeExpire, Data: &patch.OpExpire{Key: key, Expiration: meta.key.Expiration}}}
 			})
+			v = 1
 		}
 		return nil
 	})
@@ -286,23 +285,20 @@ func (n *Nodis) ExpireAtLT(key string, timestamp time.Time) int64 {
 
 // ExpireAtGT the keys only when the new expiry is greater than current one
 func (n *Nodis) ExpireAtGT(key string, timestamp time.Time) int64 {
-	var v int64 = 1
+	var v int64 = 0
 	_ = n.exec(func(tx *Tx) error {
 		meta := tx.writeKey(key, nil)
 		if !meta.isOk() {
-			v = 0
 			return nil
 		}
 		unix := timestamp.UnixMilli()
-		if meta.key.Expiration == 0 {
-			meta.key.Expiration = unix
-		}
 		if meta.key.Expiration < unix {
 			meta.key.Expiration = unix
 			n.signalModifiedKey(key, meta)
 			n.notify(func() []patch.Op {
 				return []patch.Op{{Type: patch.OpTypeExpire, Data: &patch.OpExpire{Key: key, Expiration: meta.key.Expiration}}}
 			})
+			v = 1
 		}
 		return nil
 	})
